@@ -48,6 +48,18 @@ package config
 //@   trusted
 //@   nopanic
 
+// the file client stores exactly the bytes it is given, and reads back what was stored
+//@ immutable fileClient: file
+//@ func (fc *fileClient) Set(data []byte) (err error)
+//@   requires [recv] fc != nil
+//@   nopanic
+//@   modifies $fs[fc.file]
+//@   ensures [written] err == nil ==> $fs[fc.file] == contents(data)
+//@ func (fc *fileClient) Get() (data []byte, err error)
+//@   requires [recv] fc != nil
+//@   nopanic
+//@   ensures [read] err == nil ==> contents(data) == $fs[fc.file]
+
 // a configuration reaches the client only after it validated
 //@ func Write(config *PikeConfig) (err error)
 //@   requires [config] config != nil
